@@ -14,6 +14,7 @@ import (
 	"sort"
 	"strconv"
 	"strings"
+	"sync"
 	"sync/atomic"
 	"testing"
 	"testing/synctest"
@@ -62,6 +63,8 @@ type runState struct {
 	sc      scenario
 	msg     string
 	msgs    []string
+	burstGate chan struct{}
+	mu        sync.Mutex // protects rets and the per-task return flags (submitters of a burst finish concurrently)
 	step    int
 	startStep    int // first step at which Start was issued (-1: never)
 	poolDoneStep int // first step at which the pool context was cancelled (stop / cancelparent issued); -1 = never
@@ -100,6 +103,8 @@ func countWorkers() int {
 
 func (r *runState) observe(step int) {
 	synctest.Wait()
+	r.mu.Lock()
+	defer r.mu.Unlock()
 	sort.Strings(r.rets)
 	var ts []string
 	running := 0
@@ -168,20 +173,28 @@ func (r *runState) submit(kind, ctxKind string) {
 	}
 	tr.task = workerpool.NewTask(tr.ctx, exec)
 	r.tasks = append(r.tasks, tr)
+	gate := r.burstGate
 	go func() {
 		defer func() {
 			if p := recover(); p != nil {
 				atomic.AddInt32(&r.panics, 1)
 			}
 		}()
+		if gate != nil {
+			<-gate
+		}
 		if kind == "do" {
 			r.pool.Do(tr.task)
+			r.mu.Lock()
 			tr.returned, tr.accepted = true, true
 			r.rets = append(r.rets, fmt.Sprintf("do:%d", id))
+			r.mu.Unlock()
 		} else {
 			b := r.pool.TryDo(tr.task)
+			r.mu.Lock()
 			tr.returned, tr.tryRes, tr.accepted = true, b, b
 			r.rets = append(r.rets, fmt.Sprintf("try:%d:%v", id, b))
+			r.mu.Unlock()
 		}
 	}()
 }
@@ -202,11 +215,21 @@ func (r *runState) runScenario() {
 		switch f[0] {
 		case "do", "try":
 			r.submit(f[0], f[1])
+		case "burst":
+			// several submissions released at the same instant: their steps interleave on the real scheduler
+			n, _ := strconv.Atoi(f[1])
+			start := make(chan struct{})
+			r.burstGate = start
+			for k := 0; k < n; k++ {
+				r.submit("do", f[2])
+			}
+			r.burstGate = nil
+			close(start)
 		case "start":
 			if r.startStep < 0 {
 				r.startStep = i
 			}
-			go func() { r.pool.Start(); r.rets = append(r.rets, "start") }()
+			go func() { r.pool.Start(); r.mu.Lock(); r.rets = append(r.rets, "start"); r.mu.Unlock() }()
 		case "stop":
 			r.stopCalled = true
 			if r.poolDoneStep < 0 {
@@ -219,8 +242,10 @@ func (r *runState) runScenario() {
 					}
 				}()
 				r.pool.Stop()
+				r.mu.Lock()
 				r.stopReturned = true
 				r.rets = append(r.rets, "stop")
+				r.mu.Unlock()
 			}()
 		case "finish":
 			u, _ := strconv.Atoi(f[1])
@@ -299,6 +324,9 @@ func (r *runState) runScenario() {
 				if res.Result != t.id {
 					r.fail("C04 task %d received result %v, its executor returned %d", t.id, res.Result, t.id)
 				}
+				if atomic.LoadInt32(&t.execs) == 0 {
+					r.fail("C17 task %d was never executed (refused / released by a cancelled context) but its result carries no context error: %+v", t.id, *res)
+				}
 				if atomic.LoadInt32(&t.execs) != 1 {
 					r.fail("C04 task %d has a value result but %d executions", t.id, atomic.LoadInt32(&t.execs))
 				}
@@ -349,7 +377,7 @@ func genScenario(rng *rand.Rand) scenario {
 	stopped, started := false, sc.autostart
 	for i := 0; i < n; i++ {
 		switch r := rng.Intn(100); {
-		case r < 40:
+		case r < 38:
 			kind := []string{"do", "do", "try"}[rng.Intn(3)]
 			ck := []string{"pool", "pool", "own", "never"}[rng.Intn(4)]
 			sc.actions = append(sc.actions, kind+" "+ck)
@@ -358,6 +386,13 @@ func genScenario(rng *rand.Rand) scenario {
 				own[ntask] = true
 			}
 			ntask++
+		case r < 47 && sc.limit > 0:
+			k := 2 + rng.Intn(2)
+			sc.actions = append(sc.actions, fmt.Sprintf("burst %d %s", k, []string{"pool", "never"}[rng.Intn(2)]))
+			for j := 0; j < k; j++ {
+				running[ntask] = true
+				ntask++
+			}
 		case r < 60:
 			for u := range running {
 				sc.actions = append(sc.actions, fmt.Sprintf("finish %d", u))
@@ -428,9 +463,11 @@ func TestScenarios(t *testing.T) {
 }
 
 // TestStress: free-running submit-versus-Stop races on the real scheduler (no bubble): monitors only.
+// Every round: many submitters hammer Do / TryDo / Execute* in tight loops on a fresh pool (fixed or expandable, sometimes with a
+// deferred or concurrent Start) while Stop is called after a tiny random delay. Budget: POOL_RUNS milliseconds.
 func TestStress(t *testing.T) {
 	seed, _ := strconv.ParseInt(os.Getenv("POOL_SEED"), 10, 64)
-	rounds, _ := strconv.Atoi(os.Getenv("POOL_RUNS"))
+	budgetMs, _ := strconv.Atoi(os.Getenv("POOL_RUNS"))
 	monf, err := os.Create(os.Getenv("POOL_MON"))
 	if err != nil {
 		t.Fatal(err)
@@ -438,83 +475,235 @@ func TestStress(t *testing.T) {
 	mon := bufio.NewWriter(monf)
 	defer func() { mon.Flush(); monf.Close() }()
 	rng := rand.New(rand.NewSource(seed))
-	for round := 0; round < rounds; round++ {
+	deadline := time.Now().Add(time.Duration(budgetMs) * time.Millisecond)
+	type sub struct {
+		task     *workerpool.Task
+		accepted bool
+		execs    int32
+	}
+	for round := 0; time.Now().Before(deadline); round++ {
+		if round%3 == 2 {
+			crowdRound(mon, rng, round)
+			continue
+		}
 		opt := workerpool.Option{NumberWorker: 1 + rng.Intn(3), ExpandableLimit: int32(rng.Intn(3)), ExpandedLifetime: time.Millisecond, DisableAutoStart: rng.Intn(4) == 0}
-		desc := fmt.Sprintf("round=%d opt=%+v", round, opt)
-		fmt.Fprintf(mon, "RUN %d %s\n", round, desc)
+		concurrentStart := opt.DisableAutoStart && rng.Intn(2) == 0
+		delay := time.Duration(rng.Intn(3000)) * time.Microsecond
+		fmt.Fprintf(mon, "RUN %d round=%d opt=%+v concurrentStart=%v stopAfter=%v\n", round, round, opt, concurrentStart, delay)
 		mon.Flush()
 		p := workerpool.NewPool(context.Background(), opt)
-		type sub struct {
-			task     *workerpool.Task
-			accepted bool
-			execs    int32
-		}
+		var stop int32
+		var panics, submitted int32
+		var runningNow, maxRunning int32
+		var mu sync.Mutex
 		var subs []*sub
-		done := make(chan *sub, 64)
-		var panics int32
-		nsub := 4 + rng.Intn(4)
+		var wg sync.WaitGroup
+		cancelled, cancel := context.WithCancel(context.Background())
+		cancel()
+		nsub := 2 * runtime.GOMAXPROCS(0)
 		for i := 0; i < nsub; i++ {
-			try := rng.Intn(3) == 0
+			wg.Add(1)
+			mode := i % 4
 			go func() {
-				for k := 0; k < 3; k++ {
+				defer wg.Done()
+				var mine []*sub
+				for atomic.LoadInt32(&stop) == 0 && len(mine) < 4000 {
 					s := &sub{}
-					s.task = workerpool.NewTask(nil, func(context.Context) (interface{}, error) { atomic.AddInt32(&s.execs, 1); return 1, nil })
+					exec := func(context.Context) (interface{}, error) {
+						atomic.AddInt32(&s.execs, 1)
+						n := atomic.AddInt32(&runningNow, 1)
+						for {
+							m := atomic.LoadInt32(&maxRunning)
+							if n <= m || atomic.CompareAndSwapInt32(&maxRunning, m, n) {
+								break
+							}
+						}
+						runtime.Gosched()
+						atomic.AddInt32(&runningNow, -1)
+						return 1, nil
+					}
 					func() {
 						defer func() {
 							if r := recover(); r != nil {
 								atomic.AddInt32(&panics, 1)
 							}
 						}()
-						if try {
-							s.accepted = p.TryDo(s.task)
-						} else {
+						switch mode {
+						case 0:
+							s.task = workerpool.NewTask(nil, exec)
 							p.Do(s.task)
 							s.accepted = true
+						case 1:
+							s.task = workerpool.NewTask(nil, exec)
+							s.accepted = p.TryDo(s.task)
+						case 2:
+							s.task = p.ExecuteWithCtx(cancelled, exec) // already-cancelled task context: refused or executed, never stranded
+							s.accepted = true
+						default:
+							s.task, s.accepted = p.TryExecute(exec)
 						}
 					}()
-					done <- s
+					atomic.AddInt32(&submitted, 1)
+					if s.task != nil {
+						mine = append(mine, s)
+					}
 				}
+				mu.Lock()
+				subs = append(subs, mine...)
+				mu.Unlock()
 			}()
 		}
-		if rng.Intn(3) == 0 {
-			time.Sleep(time.Duration(rng.Intn(200)) * time.Microsecond)
-		}
-		if opt.DisableAutoStart && rng.Intn(2) == 0 {
+		time.Sleep(delay)
+		if concurrentStart {
 			go p.Start()
 		}
-		p.Stop()
+		stopDone := make(chan struct{})
+		go func() { p.Stop(); close(stopDone) }()
 		msg := ""
-		for i := 0; i < nsub*3; i++ {
-			select {
-			case s := <-done:
-				subs = append(subs, s)
-			case <-time.After(5 * time.Second):
-				msg = "C12 a submission is still blocked 5s after Stop returned"
-			}
+		select {
+		case <-stopDone:
+		case <-time.After(10 * time.Second):
+			msg = "C08 Stop did not return within 10s"
 		}
-		for _, s := range subs {
-			if !s.accepted {
-				continue
-			}
-			select {
-			case res := <-s.task.Result():
-				if res.Err != nil && atomic.LoadInt32(&s.execs) != 0 {
-					msg = "C04 task with a context-error result was executed"
+		atomic.StoreInt32(&stop, 1)
+		wdone := make(chan struct{})
+		go func() { wg.Wait(); close(wdone) }()
+		select {
+		case <-wdone:
+		case <-time.After(10 * time.Second):
+			msg = "C12 a submission is still blocked 10s after Stop returned"
+		}
+		if msg == "" {
+			for _, s := range subs {
+				if !s.accepted {
+					continue
 				}
-				if res.Err == nil && atomic.LoadInt32(&s.execs) != 1 {
-					msg = fmt.Sprintf("C04 task with a value result executed %d times", s.execs)
+				select {
+				case res := <-s.task.Result():
+					if res.Err != nil && atomic.LoadInt32(&s.execs) != 0 {
+						msg = "C04 task with a context-error result was executed"
+					}
+					if res.Err == nil && atomic.LoadInt32(&s.execs) != 1 {
+						msg = fmt.Sprintf("C04 task with a value result executed %d times", s.execs)
+					}
+				default:
+					msg = "C12 accepted task has no result after Stop returned and all submitters finished (stranded)"
 				}
-			case <-time.After(2 * time.Second):
-				msg = "C12 accepted task never received a result (stranded)"
 			}
 		}
 		if n := atomic.LoadInt32(&panics); n > 0 {
-			msg = fmt.Sprintf("C12 %d submission(s) panicked", n)
+			msg = fmt.Sprintf("C12 %d submission(s) panicked while racing with Stop", n)
+		}
+		if m := int(atomic.LoadInt32(&maxRunning)); m > opt.NumberWorker+int(opt.ExpandableLimit) {
+			msg = fmt.Sprintf("C11 %d tasks executed simultaneously, cap is NumberWorker %d + ExpandableLimit %d", m, opt.NumberWorker, opt.ExpandableLimit)
+		}
+		if msg == "" {
+			// Stop has returned: the pool must be stopped (a task submitted now is refused with the context error, never executed)
+			var ran int32
+			probe := workerpool.NewTask(nil, func(context.Context) (interface{}, error) { atomic.AddInt32(&ran, 1); return 1, nil })
+			func() {
+				defer func() { recover() }()
+				p.Do(probe)
+			}()
+			select {
+			case res := <-probe.Result():
+				if res.Err == nil || atomic.LoadInt32(&ran) != 0 {
+					msg = "C08 Stop has returned but the pool still accepts and executes tasks (Stop had no effect)"
+				}
+			case <-time.After(2 * time.Second):
+				msg = "C12 a task submitted after Stop returned never received a result"
+			}
+			p.Stop()
 		}
 		if msg != "" {
 			fmt.Fprintf(mon, "MON %d FAIL %s\n", round, msg)
 		} else {
-			fmt.Fprintf(mon, "MON %d ok subs=%d\n", round, len(subs))
+			fmt.Fprintf(mon, "MON %d ok subs=%d\n", round, atomic.LoadInt32(&submitted))
 		}
+	}
+}
+
+// crowdRound targets the parallelism cap (C11): every worker the pool may have before the crowd arrives is parked on a
+// task that blocks until the end of the round and the one-slot queue is full; then a crowd of submitters is released at
+// the same instant. All tasks block until the round is over, so the number of tasks that have started is the number
+// executing simultaneously; it must never exceed NumberWorker + ExpandableLimit.
+func crowdRound(mon *bufio.Writer, rng *rand.Rand, round int) {
+	nw, limit := 1+rng.Intn(2), 1+rng.Intn(2)
+	pre := rng.Intn(limit) // expanded workers created sequentially before the crowd
+	opt := workerpool.Option{NumberWorker: nw, ExpandableLimit: int32(limit), ExpandedLifetime: time.Minute}
+	fmt.Fprintf(mon, "RUN %d round=%d crowd opt=%+v preExpanded=%d\n", round, round, opt, pre)
+	mon.Flush()
+	p := workerpool.NewPool(context.Background(), opt)
+	var running, peak int32
+	release := make(chan struct{})
+	exec := func(context.Context) (interface{}, error) {
+		n := atomic.AddInt32(&running, 1)
+		for {
+			m := atomic.LoadInt32(&peak)
+			if n <= m || atomic.CompareAndSwapInt32(&peak, m, n) {
+				break
+			}
+		}
+		<-release
+		atomic.AddInt32(&running, -1)
+		return nil, nil
+	}
+	waitRunning := func(n int) bool {
+		for i := 0; i < 200000; i++ {
+			if int(atomic.LoadInt32(&running)) >= n {
+				return true
+			}
+			time.Sleep(5 * time.Microsecond)
+		}
+		return false
+	}
+	msg := ""
+	for i := 0; i < nw; i++ {
+		p.Execute(exec)
+	}
+	if !waitRunning(nw) {
+		msg = "C17 fixed workers did not pick up the first NumberWorker tasks"
+	}
+	p.Execute(exec) // fills the queue slot
+	for i := 0; i < pre && msg == ""; i++ {
+		p.Execute(exec)
+		if !waitRunning(nw + i + 1) {
+			msg = "C11 a saturated pool below its expansion limit did not expand"
+		}
+	}
+	crowd := runtime.GOMAXPROCS(0) - 2
+	if crowd < 2 {
+		crowd = 8
+	}
+	var start uint32
+	var ready, done sync.WaitGroup
+	ready.Add(crowd)
+	done.Add(crowd)
+	for i := 0; i < crowd; i++ {
+		go func() {
+			defer done.Done()
+			ready.Done()
+			for atomic.LoadUint32(&start) == 0 {
+			}
+			p.Execute(exec)
+		}()
+	}
+	ready.Wait()
+	atomic.StoreUint32(&start, 1)
+	waitRunning(nw + limit)
+	time.Sleep(300 * time.Microsecond)
+	pk := int(atomic.LoadInt32(&peak))
+	close(release)
+	done.Wait()
+	p.Stop()
+	if pk > nw+limit {
+		msg = fmt.Sprintf("C11 %d tasks executed simultaneously after %d submitters arrived at once, cap is NumberWorker %d + ExpandableLimit %d", pk, crowd, nw, limit)
+	} else if pk < nw+limit && msg == "" {
+		msg = fmt.Sprintf("C11 saturated pool with %d blocked submitters ran only %d tasks at once, below NumberWorker %d + ExpandableLimit %d", crowd, pk, nw, limit)
+	}
+	if msg != "" {
+		fmt.Fprintf(mon, "MON %d FAIL %s\n", round, msg)
+	} else {
+		fmt.Fprintf(mon, "MON %d ok subs=%d\n", round, crowd+nw+1+pre)
 	}
 }
